@@ -91,7 +91,8 @@ FIXED_SCEN = ("start", "end", "effort", "priority", "scheduled")
 FIXED_PLAIN = ("id", "name", "seqno")
 
 
-def _extract(proj, column_ids):
+def _extract(proj, column_ids, sc=0):
+    """`sc`: index of the scenario the report is about (its `scenarios` attribute; the first one by default)"""
     defs = proj.tasks.attributeDefinitions
     tasks = []
     unmodelled = []
@@ -105,7 +106,7 @@ def _extract(proj, column_ids):
                 unmodelled.append(cid)
                 continue
             try:
-                raw = t.get(cid, 0) if d.scenarioSpecific else t.get(cid)
+                raw = t.get(cid, sc) if d.scenarioSpecific else t.get(cid)
             except Exception:  # noqa: BLE001
                 continue
             v = _value(raw)
@@ -113,17 +114,17 @@ def _extract(proj, column_ids):
                 unmodelled.append(cid)
                 continue
             (scen if d.scenarioSpecific else plain).append([cid, v])
-        st, en = t.get("start", 0), t.get("end", 0)
+        st, en = t.get("start", sc), t.get("end", sc)
         tasks.append({
             "id": t.fullId, "name": t.name, "seq": t.get("seqno"), "leaf": bool(t.leaf()),
-            "scheduled": bool(t.get("scheduled", 0)),
+            "scheduled": bool(t.get("scheduled", sc)),
             "start": _ts(st) if st is not None else None, "end": _ts(en) if en is not None else None,
-            "effort": _value(t.get("effort", 0)), "priority": int(t.get("priority", 0)),
+            "effort": _value(t.get("effort", sc)), "priority": int(t.get("priority", sc)),
             "scen": scen, "plain": plain})
     resources, ledger = [], []
     for r in proj.resources:
-        resources.append({"id": r.fullId, "rate": _frac(r.get("rate", 0) or 0.0)})
-        rs = r.data[0] if r.data else None
+        resources.append({"id": r.fullId, "rate": _frac(r.get("rate", sc) or 0.0)})
+        rs = r.data[sc] if r.data else None
         per_task = {}
         if rs is not None:
             for _i, lst in getattr(rs, "slotTaskUsage", {}).items():
@@ -149,7 +150,7 @@ def rep_run(req):
                     c.setdefault("options", {})
                     c["options"]["title"] = title
             before = _snapshot(proj)
-            data, unmodelled = _extract(proj, [c["id"] for c in cols])
+            data, unmodelled = _extract(proj, [c["id"] for c in cols], int(req.get("scenario", 0)))
             rounds = []
             for _k in range(int(req.get("times", 3))):
                 ctx = ReportContext(proj, report)
